@@ -73,3 +73,59 @@ From VQ Require Import Glue.Pin_fp_C12.
 Theorem C12_tie_source_footprint : fp_C12.fp_C12 = pinned_fp_C12.
 Proof. exact pin_fp_C12. Qed.
 Print Assumptions C12_tie_source_footprint.
+
+(* "k depends only on the seed" under interleaving: the residual forwards construct a private random.Random(seed) (Gen/o_*_rng, regenerated),
+   so under EVERY interleaving of two calls each call's depth is that of its own seed; the process-global generator is refuted (seed C12-e) *)
+From VQ Require Import Model.RngSched Proofs.RngSchedProofs Glue.RngGlue.
+Theorem C12_tie_private_rng :
+  uses_private_rng Gen.o_rvq_rng.o_rvq_rng = true /\ uses_private_rng Gen.o_rfsq_rng.o_rfsq_rng = true /\
+  uses_private_rng Gen.o_rlfq_rng.o_rlfq_rng = true /\ uses_private_rng Gen.o_rsvq_rng.o_rsvq_rng = true.
+Proof. exact residual_forwards_use_private_rng. Qed.
+Print Assumptions C12_tie_private_rng.
+
+Theorem C12_rvq_depth_schedule_independent :
+  forall (St : Type) (seedf : Z -> St) (draw : St -> Z * St) (s1 s2 : Z) (sched : list op),
+  In sched (merge (prog false s1) (prog true s2)) ->
+  res1 St (run St (step_of St seedf draw Gen.o_rvq_rng.o_rvq_rng) sched) = Some (depth_of St seedf draw s1)
+  /\ res2 St (run St (step_of St seedf draw Gen.o_rvq_rng.o_rvq_rng) sched) = Some (depth_of St seedf draw s2).
+Proof. exact rvq_depth_schedule_independent. Qed.
+Print Assumptions C12_rvq_depth_schedule_independent.
+
+Theorem C12_rfsq_depth_schedule_independent :
+  forall (St : Type) (seedf : Z -> St) (draw : St -> Z * St) (s1 s2 : Z) (sched : list op),
+  In sched (merge (prog false s1) (prog true s2)) ->
+  res1 St (run St (step_of St seedf draw Gen.o_rfsq_rng.o_rfsq_rng) sched) = Some (depth_of St seedf draw s1)
+  /\ res2 St (run St (step_of St seedf draw Gen.o_rfsq_rng.o_rfsq_rng) sched) = Some (depth_of St seedf draw s2).
+Proof. exact rfsq_depth_schedule_independent. Qed.
+Print Assumptions C12_rfsq_depth_schedule_independent.
+
+Theorem C12_rlfq_depth_schedule_independent :
+  forall (St : Type) (seedf : Z -> St) (draw : St -> Z * St) (s1 s2 : Z) (sched : list op),
+  In sched (merge (prog false s1) (prog true s2)) ->
+  res1 St (run St (step_of St seedf draw Gen.o_rlfq_rng.o_rlfq_rng) sched) = Some (depth_of St seedf draw s1)
+  /\ res2 St (run St (step_of St seedf draw Gen.o_rlfq_rng.o_rlfq_rng) sched) = Some (depth_of St seedf draw s2).
+Proof. exact rlfq_depth_schedule_independent. Qed.
+Print Assumptions C12_rlfq_depth_schedule_independent.
+
+Theorem C12_rsvq_depth_schedule_independent :
+  forall (St : Type) (seedf : Z -> St) (draw : St -> Z * St) (s1 s2 : Z) (sched : list op),
+  In sched (merge (prog false s1) (prog true s2)) ->
+  res1 St (run St (step_of St seedf draw Gen.o_rsvq_rng.o_rsvq_rng) sched) = Some (depth_of St seedf draw s1)
+  /\ res2 St (run St (step_of St seedf draw Gen.o_rsvq_rng.o_rsvq_rng) sched) = Some (depth_of St seedf draw s2).
+Proof. exact rsvq_depth_schedule_independent. Qed.
+Print Assumptions C12_rsvq_depth_schedule_independent.
+
+Theorem C12_shared_sequential_ok :
+  forall (St : Type) (seedf : Z -> St) (draw : St -> Z * St) (s1 s2 : Z),
+  res1 St (run St (step_shared St seedf draw) (prog false s1 ++ prog true s2)) = Some (depth_of St seedf draw s1)
+  /\ res2 St (run St (step_shared St seedf draw) (prog false s1 ++ prog true s2)) = Some (depth_of St seedf draw s2).
+Proof. exact shared_sequential_ok. Qed.
+Print Assumptions C12_shared_sequential_ok.
+
+Theorem C12_shared_schedule_refuted :
+  forall (St : Type) (seedf : Z -> St) (draw : St -> Z * St) (s1 s2 : Z),
+  depth_of St seedf draw s1 <> depth_of St seedf draw s2 ->
+  exists sched, In sched (merge (prog false s1) (prog true s2))
+    /\ res1 St (run St (step_shared St seedf draw) sched) <> Some (depth_of St seedf draw s1).
+Proof. exact shared_schedule_dependent. Qed.
+Print Assumptions C12_shared_schedule_refuted.
